@@ -180,8 +180,25 @@ func TestConsensus(t *testing.T) {
 		c.drawFocus(t)
 		ws := drawSequence(t, &c)
 		text := func() string { return "scn=" + sc.String() + " " + wiresText(ws) }
-		info := v.runSequence(t, evReporter(t), ws, text)
-		if info.changed || info.abandoned {
+		// an allocation alarm is confirmed on victims built afresh for the same scenario (a victim's state depends on
+		// its scenario only, so the drawn messages mean the same to each of them)
+		var info seqInfo
+		passes := 0
+		confirmAlloc(evReporter(t), text, func(rep reporter) {
+			pv := v
+			if passes > 0 {
+				dropVictim(sc)
+				pv, _ = getVictim(t, sc)
+			}
+			pi := pv.runSequence(t, rep, ws, text)
+			if passes == 0 {
+				info = pi
+			} else {
+				dropVictim(sc)
+			}
+			passes++
+		})
+		if passes == 1 && (info.changed || info.abandoned) {
 			dropVictim(sc)
 		}
 		nontrivial := false
